@@ -87,6 +87,7 @@ type FuncSpec struct {
 	Ghosts     []Param        // ghost parameters (existentially supplied by use sites as fresh symbols)
 	Asserts    []CallAssert
 	Binds      []CallBind
+	Sweep      bool       // zero-annotation sweep: loops are cut with the invariant "true", reference parameters are non-nil
 	Lets       []CallBind // "let name = expr after call callee#k": a local ghost fixed right after one call site
 	Implements string // interface contract this method must satisfy
 	AfterLoop  []CallAssert // "after loop N: assert e" (Ordinal = loop ordinal)
